@@ -37,3 +37,12 @@ Inductive use :=
 | UUnknown (what : string).    (* anything else touching the object's state: not modelled *)
 
 Record minfo := { m_name : string; m_dim : Z; m_unique : bool; m_uses : list use }.
+
+(* how a cache-key attribute is assigned *)
+Inductive kstore :=
+| KConst          (* a constant *)
+| KCopy           (* np.array(...) / int(...) / tuple(...) / a literal: a new object *)
+| KCheckedScalar  (* _check_scalar_variable(..., two_d=False): an immutable numpy scalar *)
+| KChecked2D      (* _check_scalar_variable(..., two_d=True): np.asarray does not copy -- may be the caller's own array *)
+| KRaw            (* the caller's argument itself *)
+| KUnknown.
